@@ -611,6 +611,7 @@ func checkC16(r *Report) {
 	}
 	// OP-DOMAIN: operators forwarded to the version-constraint parser
 	markerOpDomainRule(r, p, pk, opConsts, spell)
+	stringerCurrentRule(r, p, "C16/STRINGER-CURRENT", "resolve/pypi", "markerOp")
 	// PLATFORM-DEFINED
 	ipk := p.pkg("resolve/pypi/internal")
 	if ipk == nil {
@@ -774,6 +775,9 @@ func checkC19(r *Report) {
 	// e. KEY-TABLES
 	keyTablesRule(r, p, "resolve/dep", "resolve/internal/deptest", true)
 	keyTablesRule(r, p, "resolve/version", "resolve/internal/versiontest", false)
+	// e'. the key names the parsers' dictionaries are built from (AttrKey.String) cover every key
+	stringerCurrentRule(r, p, "C19.e/STRINGER-CURRENT", "resolve/dep", "AttrKey")
+	stringerCurrentRule(r, p, "C19.e/STRINGER-CURRENT", "resolve/version", "AttrKey")
 	// f. QUOTE-AGREE
 	quoteAgreeRule(r, p, "C19.f/QUOTE-AGREE", "resolve/internal/versiontest.String", "resolve/internal/versiontest.ParseString")
 	// i. VALUE-WRITTEN
@@ -783,6 +787,7 @@ func checkC19(r *Report) {
 	noWideSubtractRule(r, p, "C19.g/NO-WIDE-SUBTRACT", cfs)
 	nM := mapOrderRule(r, p, "C19.g/MAP-ORDER", cfs)
 	signSymmetryRule(r, p, "C19.g/SIGN-SYMMETRIC", cfs)
+	loopReturnRule(r, p, "C19.g/LOOP-NONZERO", cfs)
 	r.floor("C19.g/MAP-ORDER", "three-way comparators of attr, dep and version", nM, 2)
 	// h. LOOP-SINGLE-STEP: the schema parsers look at every token. A nested
 	// loop that advances the outer loop's counter past the token it consumed
